@@ -125,7 +125,11 @@ func runParse(input []byte, sched []int, eofWithData bool, failRead, failCb int,
 			}
 			return nil
 		}
-		p := chunkparser.NewMP4ChunkParser(rd, make([]byte, bufSize), cb)
+		initBuf := make([]byte, maxInt(bufSize, 0))
+		if bufSize < 0 { // a recycled buffer: no length, capacity -bufSize
+			initBuf = make([]byte, 0, -bufSize)
+		}
+		p := chunkparser.NewMP4ChunkParser(rd, initBuf, cb)
 		err := p.Parse()
 		kind := "done"
 		switch {
@@ -424,7 +428,7 @@ func genC18(c *Ctx) {
 		if fr == "-" && fc == "-" && i%3 == 0 {
 			sched2, _ := c18Sched(r, len(stream), boxes)
 			line2 := fmt.Sprintf("parse %s %s %d - -", hx, sched2, 1-eof)
-			res2 := runParseFromLine(line2, r.Pick(0, 4, 1024, len(stream)))
+			res2 := runParseFromLine(line2, r.Pick(0, 4, 1024, len(stream), -16, -1024, -(len(stream)/2 + 1), -100))
 			if res2.kind == res.kind && res.kind == "done" && !sameCbs(res.cbs, res2.cbs) {
 				if !endsWithTinyMoov(stream) {
 					c.Violate("sched-dependent", "callbacks depend on the read schedule / EOF style / buffer size",
